@@ -5,6 +5,7 @@ import (
 	"encoding/json"
 	"fmt"
 	"math/big"
+	"reflect"
 	"sort"
 	"strings"
 	"time"
@@ -315,10 +316,30 @@ func (g *Gen) buildTx() *Step {
 	}
 	var msgs []sdk.Msg
 	note := ""
+	// several messages of one kind built from the same view: each is fine alone, together they
+	// compete for the same balance / fee / order / sequence number
+	sameKind := nm > 1 && g.R.Chance(0.4)
+	first := ""
 	for i := 0; i < nm; i++ {
-		kind, m := g.genMsg(a, v, mode)
+		var kind string
+		var m sdk.Msg
+		if sameKind && first != "" {
+			for _, k := range Kinds {
+				if k.Name == first {
+					kind, m = first, k.Gen(g, a, v, mode)
+				}
+			}
+		} else {
+			kind, m = g.genMsg(a, v, mode)
+		}
 		if m == nil {
 			continue
+		}
+		if first == "" {
+			first = kind
+		}
+		if !strings.HasPrefix(kind, "ICA") && g.R.Chance(p.StyleRate*0.4) {
+			g.spellOneAddressUpper(m)
 		}
 		msgs = append(msgs, m)
 		if note != "" {
@@ -371,6 +392,38 @@ func (g *Gen) buildTx() *Step {
 		ts.BankFault = &BankFaultSpec{Method: Pick(g.R, methods), Nth: g.R.Weighted([]float64{0, 4, 1, 0.5})}
 	}
 	return &Step{Kind: KTx, Tx: ts}
+}
+
+// spellOneAddressUpper rewrites one address of the message into the all-upper-case
+// bech32 spelling (a valid spelling of the same address).
+func (g *Gen) spellOneAddressUpper(m sdk.Msg) {
+	n := 0
+	isAddr := func(s string) bool {
+		if !strings.HasPrefix(s, "regen1") {
+			return false
+		}
+		_, err := sdk.AccAddressFromBech32(s)
+		return err == nil
+	}
+	walkStrings(reflect.ValueOf(m), func(s string) string {
+		if isAddr(s) {
+			n++
+		}
+		return s
+	})
+	if n == 0 {
+		return
+	}
+	k, i := g.R.Intn(n), 0
+	walkStrings(reflect.ValueOf(m), func(s string) string {
+		if isAddr(s) {
+			if i++; i-1 == k {
+				g.W.Probe("address_spelled_upper_case")
+				return strings.ToUpper(s)
+			}
+		}
+		return s
+	})
 }
 
 // txStep wraps messages into a fault-free, fresh tx step (used by probes).
